@@ -1406,6 +1406,233 @@ def examine_tails(ctx, spec, data, counts):
                  '|cdf(ppf(q)) - q| <= 1e-6 min(q, 1-q) (+ few ulps) for q next to 0 / 1 through the wrapper')
 
 
+# ------------------------------------------------------------------ composition of one batch of probabilities
+Q_ENDS = [0.0, 1.0, EPS / 2, 1 - EPS / 2, EPS, 1 - EPS, 1e-9, 1 - 1e-9]
+
+
+def mixed_batches(rs):
+    """batches mixing interior probabilities with end-point ones: several sizes, orders, positions"""
+    out = [np.linspace(0, 1, 21), np.array([0.3, 0.9, 1.0]), np.array([0.0, 0.5]), np.array([0.5, 0.0])]
+    for size in (2, 3, 7, 20, 50):
+        k_end = max(1, min(size - 1, int(rs.choice([1, 2, 4]))))
+        ends = list(rs.choice(Q_ENDS, k_end))
+        inner = list(rs.uniform(1e-3, 1 - 1e-3, size - k_end))
+        how = rs.choice(['ends-first', 'ends-last', 'shuffled', 'sorted'])
+        q = ends + inner if how == 'ends-first' else inner + ends
+        q = np.array(q)
+        if how == 'shuffled':
+            rs.shuffle(q)
+        elif how == 'sorted':
+            q = np.sort(q)
+        out.append(q)
+    return out
+
+
+def examine_composition(ctx, spec, data, seed, counts):
+    """the value returned for q_i inside a batch that mixes interior and end-point probabilities must be the value
+    returned for q_i alone (bitwise; to the root finder's tolerance for the KDE) and for q_i in the all-interior
+    sub-batch; the mixed batch must come back non-decreasing in q"""
+    m = fit(spec, data)
+    if isinstance(m, tuple):
+        ctx.count(f'composition.{spec["cls"]}.fit-raises')
+        return
+    if is_const(m):
+        return
+    inst = inst_of(m)
+    icls = type(inst).__name__
+    wrapper = spec['cls'] == 'Univariate'
+    kde = icls == 'GaussianKDE'
+    ctx.count(f'composition.{spec["cls"]}' + (f'->{icls}' if wrapper else ''))
+    d = np.asarray(data, dtype=float)
+    span = max(float(d.max() - d.min()), float(d.std()))
+    rs = np.random.RandomState(seed)
+    variants = [('percent_point', lambda o, q: o.percent_point(q))]
+    if kde and not wrapper:
+        variants.append(('percent_point[bisect]', lambda o, q: o.percent_point(q, method='bisect')))
+
+    def mismatch(obj, f, q):
+        """-> None or (index, in_batch, alone/interior value, which reference)"""
+        whole = call(lambda: f(obj, q))
+        counts['checks'] += len(q)
+        if whole[0] == 'err':
+            return ('raises', whole[1])
+        w = whole[1]
+        if w.shape != q.shape:
+            return ('shape', list(w.shape))
+        tol = (1e-9 * span + 2e-8) if kde else 0.0
+        interior = (q > EPS) & (q < 1 - EPS)
+        alone = []
+        for qi in q:
+            r1 = call(lambda: f(obj, np.array([qi])))
+            alone.append(float(r1[1][0]) if r1[0] == 'ok' and r1[1].shape == (1,) else np.nan)
+        refs = [('alone', np.array(alone))]
+        if interior.any() and not interior.all():
+            r = call(lambda: f(obj, q[interior]))
+            if r[0] == 'ok':
+                full = np.full(len(q), np.nan)
+                full[interior] = r[1]
+                refs.append(('all-interior batch', full))
+        for what, ref in refs:
+            for i in range(len(q)):
+                a, b = float(w[i]), float(ref[i])
+                if what != 'alone' and not interior[i]:
+                    continue
+                if b != b and what == 'alone':
+                    continue        # the single call itself fails (recorded elsewhere)
+                ok = same(a, b) or (tol and math.isfinite(a) and math.isfinite(b) and abs(a - b) <= tol)
+                if not ok:
+                    return ('value', i, a, b, what)
+        order = np.argsort(q, kind='stable')
+        dv = np.diff(w[order])
+        mt = tol + 1e-9 * max(span, 1.0)
+        if np.any(dv < -mt):
+            j = int(np.argmin(dv))
+            return ('monotone', [float(q[order][j]), float(q[order][j + 1])], [float(w[order][j]), float(w[order][j + 1])])
+        return None
+    for name, f in variants:
+        for q in mixed_batches(rs):
+            r = mismatch(m, f, q)
+            if r is None:
+                continue
+            counts['failures'] += 1
+            owner = icls
+            if wrapper and mismatch(inst, f, q) is None:
+                owner = 'Univariate'
+            key = f'{owner}.percent_point:depends-on-batch-composition'
+            if sum(1 for f_ in ctx.failing if f_['class'] == key) < 3:
+                if r[0] == 'value':
+                    obs = {'index': r[1], 'q_i': float(q[r[1]]), 'in_mixed_batch': r[2], 'reference': r[3],
+                           'reference_is': r[4], 'method': name}
+                elif r[0] == 'monotone':
+                    obs = {'q': r[1], 'percent_point': r[2], 'not_monotone': True, 'method': name}
+                else:
+                    obs = {'problem': r[0], 'detail': str(r[1])[:120], 'method': name}
+                ctx.fail_input(f'{spec["cls"]}.percent_point', {'spec': spec, 'data': d.tolist(), 'q': q.tolist(),
+                                                                'seed': seed, 'law': 'composition'}, obs,
+                               'percent_point(q)[i] depends on q[i] only: equal to percent_point([q[i]]) and to the '
+                               'all-interior batch, whatever else the batch contains; non-decreasing in q', key)
+            break
+
+
+def search_composition(ctx, rng, counts, deep):
+    for rep in range(3 if deep else 1):
+        for cls in ALL:
+            meta, data = gen_data(rng, n=rng.choice([8, 30, 100]))
+            spec = gen_spec(rng, cls, data)
+            spec['opts'].pop('weights', None)
+            examine_composition(ctx, spec, data, rng.randrange(2 ** 31), counts)
+        for cands in (['GaussianKDE'], [rng.choice(SCIPY)], None):
+            meta, data = gen_data(rng, n=rng.choice([8, 30]))
+            opts = {'candidates': cands} if cands else {}
+            examine_composition(ctx, {'cls': 'Univariate', 'opts': opts}, data, rng.randrange(2 ** 31), counts)
+
+
+# ------------------------------------------------------------------ one candidate list of INSTANCES, several wrappers
+def examine_shared(ctx, cand_names, datasets, seeds, counts, seeded_protos=False):
+    """`cands` = prototype INSTANCES, reused for several `Univariate(candidates=cands)` fits (one per column of a
+    table, some constant).  Every wrapper must keep answering for ITS OWN data after the others were fitted:
+    bitwise the snapshot taken right after its own fit, the C03 laws for its own data, and no two wrappers (nor a
+    wrapper and a prototype) may share the fitted model object."""
+    u = U()
+    protos = [getattr(u, c)(random_state=0) if (seeded_protos and c != 'GaussianKDE') else getattr(u, c)()
+              for c in cand_names]
+    ctx.count('shared.' + '+'.join(cand_names))
+    rng = vc.rng_for(seeds[0], 'shared-probes')
+    wrappers, snaps = [], []
+    qs = np.array([0.0, 0.01, 0.2, 0.5, 0.8, 0.99, 1.0])
+
+    def snapshot(w, x):
+        out = {}
+        for q, arg in (('cdf', x), ('pdf', x), ('ppf', qs)):
+            out[q] = call(getattr(w, LONG[q]), arg)
+        try:
+            out['to_dict'] = {k: (float(v) if isinstance(v, (int, float, np.floating, np.integer)) else repr(v))
+                              for k, v in w.to_dict().items()}
+        except Exception as e:  # noqa
+            out['to_dict'] = f'{type(e).__name__}'
+        return out
+    for data, seed in zip(datasets, seeds):
+        w = u.Univariate(candidates=protos)
+        if seeded_fit(w, data, seed) is not None:
+            ctx.count('shared.fit-raises')
+            return
+        d = np.asarray(data, dtype=float)
+        x = probes(rng, d) if len(np.unique(d)) > 1 else np.array(const_points(rng, float(d[0])))
+        wrappers.append((w, d, x))
+        snaps.append(snapshot(w, x))
+    key = 'Univariate.fit:fitted-model-shared-between-wrappers'
+
+    def fail(inp, obs, req):
+        counts['failures'] += 1
+        if sum(1 for f in ctx.failing if f['class'] == key) < 3:
+            ctx.fail_input('Univariate.fit', dict(inp, candidates=list(cand_names), seeded_protos=seeded_protos,
+                                                  datasets=[[float(v) for v in d_] for d_ in datasets],
+                                                  seeds=list(seeds), law='shared'), obs, req, key)
+    # snapshots and laws, after ALL fits
+    for i, ((w, d, x), snap) in enumerate(zip(wrappers, snaps)):
+        now = snapshot(w, x)
+        for q in ('cdf', 'pdf', 'ppf', 'to_dict'):
+            a, b = snap[q], now[q]
+            counts['checks'] += 1
+            if q == 'to_dict':
+                same_ = a == b
+            else:
+                same_ = a[0] == b[0] and (bit_equal(a[1], b[1]) if a[0] == 'ok' else True)
+            if not same_:
+                if q != 'to_dict' and a[0] == 'ok' and b[0] == 'ok' and a[1].shape == b[1].shape:
+                    k = int(np.argmax(~((a[1] == b[1]) | (np.isnan(a[1]) & np.isnan(b[1])))))
+                    arg = qs if q == 'ppf' else x
+                    obs = {'wrapper': i, 'query': LONG[q], 'at': float(arg[k]), 'right_after_its_fit': float(a[1][k]),
+                           'after_the_other_fits': float(b[1][k])}
+                else:
+                    obs = {'wrapper': i, 'query': q, 'right_after_its_fit': str(a)[:120], 'after_the_other_fits': str(b)[:120]}
+                fail({'wrapper': i}, obs, 'a fitted wrapper answers the same before and after OTHER wrappers are fitted '
+                                         'with the same candidate list')
+                break
+        fails = []
+
+        def rep(kind, inp, obs, req):
+            fails.append((kind, inp, obs, req))
+        if len(np.unique(d)) == 1:
+            counts['checks'] += const_laws(w, float(d[0]), rng, rep)
+        elif not is_const(w):
+            counts['checks'] += laws(model_fns(w), d, rng, rep)
+        else:
+            fails.append(('constant-model-for-non-constant-data', {}, {'_constant_value': repr(inst_of(w)._constant_value)},
+                          'a wrapper fitted on non-constant data is not a point mass'))
+        fails = [f for f in fails if class_key({'cls': 'Univariate', 'opts': {}}, w, f[0]) not in KNOWN_SINGLE_FIT]
+        if fails:
+            kind, inp, obs, req = fails[0]
+            fail(dict(inp, wrapper=i, broken_law=kind), {'wrapper': i, 'law': kind, 'observed': obs},
+                 req + ' [for the wrapper\'s OWN data, after all wrappers were fitted]')
+    # identity
+    objs = [w._instance for w, _, _ in wrappers]
+    for i in range(len(objs)):
+        counts['checks'] += 1
+        if any(objs[i] is p_ for p_ in protos) or any(objs[i] is objs[j] for j in range(i)):
+            fail({'wrapper': i}, {'wrapper': i, 'its _instance is': 'a candidate prototype' if any(objs[i] is p_ for p_ in protos)
+                                  else f'the _instance of wrapper {[j for j in range(i) if objs[i] is objs[j]][0]}'},
+                 'every fitted wrapper owns its fitted model: the _instance objects are pairwise distinct and none is '
+                 'one of the candidate prototypes')
+            break
+
+
+def search_shared(ctx, rng, counts, deep):
+    for rep in range(3 if deep else 1):
+        lists = [['GaussianUnivariate', 'UniformUnivariate'], [rng.choice(['GaussianUnivariate', 'UniformUnivariate', 'GammaUnivariate',
+                                                                          'StudentTUnivariate', 'LogLaplace', 'BetaUnivariate'])],
+                 rng.sample(list(ALL), 3)]
+        for k, names in enumerate(lists):
+            datasets = []
+            for j in range(rng.choice([3, 4, 5])):
+                meta, data = gen_data(rng, n=rng.choice([20, 60]))
+                datasets.append(data)
+            pos = rng.randrange(len(datasets))
+            datasets.insert(pos, np.full(rng.choice([5, 60]), float(rng.choice([7.0, 0.0, -3.5, rng.uniform(-50, 50)]))))
+            seeds = [rng.randrange(2 ** 31) for _ in datasets]
+            examine_shared(ctx, names, datasets, seeds, counts, seeded_protos=(k == 0 and rng.random() < 0.5))
+
+
 def search_tails(ctx, rng, counts, deep):
     for rep in range(4 if deep else 1):
         for cls in ALL:
@@ -1427,6 +1654,8 @@ def search(ctx, deep):
     counts = {'checks': 0, 'failures': 0}
     reps = 10 if deep else 2
     search_tails(ctx, ctx.rng('search-tails'), counts, deep)
+    search_composition(ctx, ctx.rng('search-composition'), counts, deep)
+    search_shared(ctx, ctx.rng('search-shared'), counts, deep)
     search_history(ctx, ctx.rng('search-history'), counts, deep)
     search_batch(ctx, ctx.rng('search-batch'), counts, deep)
     for rep in range(reps):
@@ -1477,6 +1706,13 @@ def replay(ctx, payload):
     if 'history' in inp:
         examine_history(ctx, inp['spec'], [np.array(d, dtype=float) for d in inp['history']], inp['seeds'],
                         vc.rng_for(0, 'replay'), counts, True)
+        return any(f['class'] == payload.get('class') for f in ctx.failing[before:])
+    if inp.get('law') == 'composition':
+        examine_composition(ctx, inp['spec'], np.array(inp['data'], dtype=float), inp['seed'], counts)
+        return any(f['class'] == payload.get('class') for f in ctx.failing[before:])
+    if inp.get('law') == 'shared':
+        examine_shared(ctx, inp['candidates'], [np.array(d_, dtype=float) for d_ in inp['datasets']], inp['seeds'],
+                       counts, inp.get('seeded_protos', False))
         return any(f['class'] == payload.get('class') for f in ctx.failing[before:])
     if inp.get('law') == 'tails':
         examine_tails(ctx, inp['spec'], np.array(inp['data'], dtype=float), counts)
